@@ -215,6 +215,26 @@ def run(spec, res):
                      'bpch1 on a reference image raised %r' % (e,),
                      excmsg=str(e)[:300])
             return
+        # (2b) the tables next to the file change (same paths, same
+        # process): a new open reads the new scale factors and units
+        import copy
+        spec2 = copy.deepcopy(spec)
+        for tr in spec2['tracers']:
+            tr['scale'] = tr['scale'] * 1000.
+            tr['unit'] = 'pptv' if tr['unit'] != 'pptv' else 'ppbv'
+        lay_tables(d, spec2)
+        try:
+            fs2 = bpch1(path, **kw)
+            res.hook('bpch1.return')
+            problems += check_read(fs2, refbpch.content(spec2), spec2, True,
+                                   'bpch1(scaled, tables rewritten in place)',
+                                   res)
+            del fs2
+        except Exception as e:
+            res.hook('bpch1.return')
+            problems.append('bpch1 after rewriting the tables in place '
+                            'raised %r' % (e,))
+        lay_tables(d, spec)
         # (1) noscale read -> write == bytes
         fr = bpch1(path, noscale=True, **kw)
         res.hook('bpch1.return')
